@@ -217,6 +217,12 @@ def make_numpy():
                 r.a[c] = (core.Int if isint else core.Real)("uninit!%d" % k)
         return r
     m.empty = empty
+
+    def full(shape, fill_value, dtype=None):
+        r = m.zeros(shape, dtype=dtype or ("int64" if isinstance(fill_value, int) and not isinstance(fill_value, bool) else "float64"))
+        r.a[...] = fill_value
+        return r
+    m.full = full
     m.zeros_like = lambda x, dtype=None: T.full_like(x if isinstance(x, Arr) else NDArray(x), 0, dtype)
     m.ones_like = lambda x, dtype=None: T.full_like(x if isinstance(x, Arr) else NDArray(x), 1, dtype)
     m.empty_like = m.zeros_like
